@@ -30,7 +30,7 @@
 EXTENDS Integers, Sequences, FiniteSets, TLC
 
 CONSTANTS Threads,      \* API callers (positive integers)
-          MaxCalls,     \* calls per thread
+          MaxCalls,     \* calls per thread; 0: any number (the counter is then frozen and the state space stays finite)
           FIXED, UNLOCK,
           Watcher,      \* BOOLEAN: the receiver has a libp2p host and a topic, so a watcher goroutine runs
           MaxMsgs,      \* pubsub messages that may arrive
@@ -53,7 +53,7 @@ Init == /\ pcs = [t \in Threads |-> "idle"] /\ op = [t \in Threads |-> "none"] /
         /\ wpc = (IF Watcher THEN "loop" ELSE "none") /\ msgs = 0 /\ published = 0 /\ restarts = 0
         /\ subCancelled = FALSE /\ watchCancelled = FALSE /\ watchDone = FALSE
 
-Ret(t, r, P) == /\ res' = [res EXCEPT ![t] = Append(@, [op |-> op[t], r |-> r, late |-> startedAfterClose[t]])]
+Ret(t, r, P) == /\ res' = [res EXCEPT ![t] = <<[op |-> op[t], r |-> r, late |-> startedAfterClose[t]]>>]     \* the thread's last result
                 /\ pcs' = [P EXCEPT ![t] = "idle"]
                 /\ closeReturned' = (closeReturned \/ op[t] = "close")
 Return(t, r) == Ret(t, r, pcs)
@@ -61,8 +61,8 @@ Receivers == {t \in Threads : pcs[t] = "n0"}       \* in Next's select
 SendersT == {t \in Threads : pcs[t] = "d4"}        \* in handleAnnounce's select
 Goto(t, l) == pcs' = [pcs EXCEPT ![t] = l] /\ UNCHANGED <<res, closeReturned>>
 
-Start(t, o) == /\ pcs[t] = "idle" /\ ncalls[t] < MaxCalls
-               /\ op' = [op EXCEPT ![t] = o] /\ ncalls' = [ncalls EXCEPT ![t] = @ + 1]
+Start(t, o) == /\ pcs[t] = "idle" /\ (MaxCalls = 0 \/ ncalls[t] < MaxCalls)
+               /\ op' = [op EXCEPT ![t] = o] /\ ncalls' = [ncalls EXCEPT ![t] = IF MaxCalls = 0 THEN @ ELSE @ + 1]
                /\ startedAfterClose' = [startedAfterClose EXCEPT ![t] = closeReturned]
                /\ cancelled' = [cancelled EXCEPT ![t] = FALSE]
                /\ closeCalled' = (closeCalled \/ o = "close")
@@ -177,11 +177,17 @@ WStep == WLoop \/ WMsg \/ WNextExit \/ WErr \/ WLock("got", "check") \/ WCheck \
 
 Next == (\E t \in Threads : Step(t)) \/ WStep \/ Publish \/ (\E t \in Threads : Cancel(t))     \* no fairness for the environment
 Spec == Init /\ [][Next]_vars /\ (\A t \in Threads : WF_vars(Step(t))) /\ WF_vars(WStep)
+(* any number of calls per thread: a thread waiting for the mutex must not be overtaken for ever (Go's mutex has a
+   starvation mode), hence strong fairness                                                                     *)
+SpecU == Init /\ [][Next]_vars /\ (\A t \in Threads : SF_vars(Step(t))) /\ SF_vars(WStep)
 
 AllDone == /\ \A t \in Threads : pcs[t] = "idle" /\ ncalls[t] = MaxCalls
            /\ wpc \in {"none", "done"}
 (* once a Close is called, every call returns -- the calls still to be made included -- and the watcher exits *)
 Termination == (<>closeCalled) => <>AllDone
+(* the same for any number of calls: once a Close has been called, a call under way returns, and the watcher exits *)
+Returns == \A t \in Threads : (closeCalled /\ pcs[t] # "idle") ~> (pcs[t] = "idle")
+WatcherExits == closeCalled ~> (wpc \in {"none", "done"})
 InCritical(t) == IF t = W THEN wpc \in {"check", "r2"}
                  ELSE pcs[t] \in {"c1", "c2", "d2", "u1"} \/ (UNLOCK = "deferred" /\ pcs[t] \in {"c3", "c4", "c5", "cret"})
 MutexReleased == mutex # 0 => InCritical(mutex)
